@@ -1,3 +1,187 @@
-(* C15 property theorems: ONLY statements closed by `exact`, each followed by Print Assumptions. *)
+(* C15 property theorems: ONLY statements closed by `exact`, each followed by Print Assumptions.
+   (sT, aT) = (sizeof T, alignof T); geometry, pool histories, system-allocator guards, debug allocator. *)
 From Coq Require Import List NArith Bool Arith.
-From DuneV Require Import C15_Model C15_Spec.
+From DuneV Require Import C15_Model C15_Spec C15_Proofs C15_Proofs_Sys C15_Proofs_Dbg C15_Proofs_Align.
+Import ListNotations.
+Local Open Scope N_scope.
+
+(* --- C15_geometry: the static_asserts of Pool<T,s> hold for EVERY parameter choice whose `int` constants are
+       representable (any sizeof T >= 1, any alignof T >= 1, any s — including chunks that hold a single object). *)
+Theorem C15_geometry : forall sT aT s g, 1 <= sT -> 1 <= aT -> c15_geometry sT aT s = Some g ->
+  0 < g_alignment g /\ (aT | g_alignment g) /\ (c15_alignofRef | g_alignment g) /\
+  sT <= g_unionSize g /\ c15_sizeofRef <= g_unionSize g /\ g_unionSize g <= g_alignedSize g /\
+  sT <= g_chunkSize g /\ c15_sizeofRef <= g_chunkSize g /\ (g_alignment g | g_chunkSize g) /\
+  1 <= g_elements g /\ g_elements g * g_alignedSize g <= g_chunkSize g /\ (g_alignment g | g_alignedSize g).
+Proof. exact c15_geometry_asserts. Qed.
+Print Assumptions C15_geometry.
+
+Theorem C15_geometry_poolallocator : forall sT aT s g, 1 <= sT -> 1 <= aT -> c15_pa_geometry sT aT s = Some g -> c15_geom_good sT aT g.
+Proof. exact c15_pa_geometry_good. Qed.
+Print Assumptions C15_geometry_poolallocator.
+
+(* the guard of C15_geometry is met by every moderate parameter choice *)
+Theorem C15_geometry_defined : forall sT aT s, 1 <= sT -> 1 <= aT -> sT + 8 * aT + 8 <= c15_int_max -> s + 8 * aT <= c15_int_max ->
+  exists g, c15_geometry sT aT s = Some g.
+Proof. exact c15_geometry_defined. Qed.
+Print Assumptions C15_geometry_defined.
+
+(* --- C15_pool_inv: for EVERY history of allocate(n)/free(live block) from the empty pool:
+       the spec oracle accepts the trace (every block inside its chunk, offset aligned for T, disjoint from every live block —
+       hence reuse only after release; n <> 1 refused; every free succeeds), destroy releases every chunk exactly once, and
+       free list + live blocks partition the slots of all chunks without repetition. *)
+Theorem C15_pool_inv : forall sT aT g ops, c15_geom_good sT aT g -> c15_ops_ok 0 ops = true ->
+  let r := c15_run g c15_client_empty ops in
+  c15_spec_trace sT aT (g_chunkSize g) 0 [] ops (fst r) = true /\
+  c15_spec_destroy (c15_spec_nchunks (fst r)) (c15_pool_destroy (cl_pool (snd r))) = true /\
+  (p_chunks (cl_pool (snd r)) = rev (seq 0 (length (p_chunks (cl_pool (snd r))))) /\
+   NoDup (p_free (cl_pool (snd r)) ++ cl_live (snd r)) /\
+   forall b, In b (p_free (cl_pool (snd r)) ++ cl_live (snd r)) <->
+             ((fst b < length (p_chunks (cl_pool (snd r))))%nat /\ exists k, k < g_elements g /\ snd b = k * g_alignedSize g)).
+Proof. exact c15_pool_history. Qed.
+Print Assumptions C15_pool_inv.
+
+(* --- C15_pool_blocks: as address ranges, for any placement `base` of the chunks that honours the contract of `new Chunk`
+       (aligned, pairwise disjoint): after EVERY history all live blocks are aligned for T, inside their chunk's storage,
+       sizeof T bytes long and pairwise disjoint. *)
+Theorem C15_pool_blocks : forall g sT aT (base : nat -> N), c15_geom_good sT aT g ->
+  (forall c, (g_alignment g | base c)) ->
+  (forall c c', c <> c' -> base c + g_chunkSize g <= base c' \/ base c' + g_chunkSize g <= base c) ->
+  forall ops, c15_ops_ok 0 ops = true ->
+    let live := cl_live (snd (c15_run g c15_client_empty ops)) in
+    NoDup live /\
+    (forall b, In b live -> (aT | base (fst b) + snd b) /\ base (fst b) <= base (fst b) + snd b /\
+                            base (fst b) + snd b + sT <= base (fst b) + g_chunkSize g) /\
+    (forall b1 b2, In b1 live -> In b2 live -> b1 <> b2 ->
+       base (fst b1) + snd b1 + sT <= base (fst b2) + snd b2 \/ base (fst b2) + snd b2 + sT <= base (fst b1) + snd b1).
+Proof. exact c15_pool_live_blocks. Qed.
+Print Assumptions C15_pool_blocks.
+
+(* --- C15_malloc_guard: n > max_size is refused; otherwise n*sizeof T does not wrap and the system allocator is asked for exactly
+       that many bytes (aligned_alloc(alignof T, .) for over-aligned T after fixes/C15-3); a null result is refused. *)
+Theorem C15_malloc_guard : forall sT aT n sys sysal, 1 <= sT ->
+  (c15_max_size sT < n -> c15_malloc_allocate sT aT n sys sysal = C15BadAlloc) /\
+  (n <= c15_max_size sT ->
+     n * sT <= c15_size_max /\
+     c15_malloc_allocate sT aT n sys sysal =
+       match (if c15_max_align <? aT then sysal aT (n * sT) else sys (n * sT)) with
+       | None => C15BadAlloc | Some p => C15Ok p end).
+Proof. exact c15_malloc_guard. Qed.
+Print Assumptions C15_malloc_guard.
+
+Theorem C15_malloc_aligned : forall sT aT n sys sysal p,
+  (forall b q, sys b = Some q -> (c15_max_align | q)) ->
+  (forall a b q, sysal a b = Some q -> (a | q)) ->
+  (c15_max_align < aT \/ (aT | c15_max_align)) ->
+  c15_malloc_allocate sT aT n sys sysal = C15Ok p -> (aT | p).
+Proof. exact c15_malloc_aligned. Qed.
+Print Assumptions C15_malloc_aligned.
+
+(* the tree as found (malloc for every T): refuted — finding F-C15-3 *)
+Theorem C15_malloc_align_orig_refuted :
+  exists sT aT n sys sysal p,
+    (forall b q, sys b = Some q -> (c15_max_align | q)) /\ (forall a b q, sysal a b = Some q -> (a | q)) /\
+    aT = 32 /\ (aT | sT) /\ c15_malloc_allocate_orig sT aT n sys sysal = C15Ok p /\ ~ (aT | p).
+Proof. exact c15_malloc_align_orig_refuted. Qed.
+Print Assumptions C15_malloc_align_orig_refuted.
+
+Theorem C15_aligned_guard : forall sT aT al n sys, 1 <= sT ->
+  (c15_max_size sT < n -> c15_aligned_allocate sT aT al n sys = C15BadAlloc) /\
+  (n <= c15_max_size sT ->
+     n * sT <= c15_size_max /\
+     c15_aligned_allocate sT aT al n sys =
+       match sys (c15_aligned_alignment aT al) (n * sT) with None => C15BadAlloc | Some p => C15Ok p end) /\
+  (forall p, (forall a b q, sys a b = Some q -> (a | q)) ->
+     c15_aligned_allocate sT aT al n sys = C15Ok p -> (c15_aligned_alignment aT al | p)).
+Proof. exact c15_aligned_guard. Qed.
+Print Assumptions C15_aligned_guard.
+
+(* --- C15_debug_layout (code after fixes/C15-2): requests that do not fit are refused; otherwise nothing wraps, the block lies in the
+       mapping and ends exactly at the guard page, which is the last page of the mapping. *)
+Theorem C15_debug_layout : forall page ty sT n mm, 1 <= page -> 2 * page <= c15_size_max -> 1 <= sT ->
+  ((c15_size_max - 2 * page) / sT < n -> c15_dbg_allocate page ty sT n mm = C15BadAlloc) /\
+  (n <= (c15_size_max - 2 * page) / sT ->
+     let cap := n * sT in
+     let pages := cap / page + 2 in
+     pages * page <= c15_size_max /\
+     (mm (pages * page) = None -> c15_dbg_allocate page ty sT n mm = C15BadAlloc) /\
+     (forall pp, mm (pages * page) = Some pp -> pp + pages * page <= 2 ^ 64 ->
+        exists ai gp, c15_dbg_allocate page ty sT n mm = C15Ok (ai, gp) /\
+          d_type ai = ty /\ d_page_ptr ai = pp /\ d_capacity ai = cap /\ d_size ai = n /\ d_pages ai = pages /\
+          d_ptr ai = pp + page - cap mod page /\
+          pp <= d_ptr ai /\ d_ptr ai + cap = gp /\ gp + page = pp + pages * page)).
+Proof. exact c15_debug_layout. Qed.
+Print Assumptions C15_debug_layout.
+
+Theorem C15_debug_offset : forall page sT aT n pp, 1 <= page -> (page | pp) ->
+  let ptr := pp + page - (n * sT) mod page in
+  ptr mod page = (page - (n * sT) mod page) mod page /\ ((aT | page) -> (aT | sT) -> (aT | ptr)).
+Proof. exact c15_debug_offset. Qed.
+Print Assumptions C15_debug_offset.
+
+(* --- C15_debug_dealloc (code after fixes/C15-1): deallocate finds, checks and removes exactly the entry of the block *)
+Theorem C15_debug_dealloc : forall page l1 it l2 n, 1 <= page ->
+  Forall (fun it => (page | d_page_ptr it) /\ d_ptr it = d_page_ptr it + page - d_capacity it mod page) (l1 ++ it :: l2) ->
+  NoDup (map d_page_ptr (l1 ++ it :: l2)) ->
+  (n = 0 \/ n = d_size it) ->
+  c15_dbg_deallocate page (d_type it) (d_ptr it) n (l1 ++ it :: l2) = inr (l1 ++ l2).
+Proof. exact c15_debug_dealloc. Qed.
+Print Assumptions C15_debug_dealloc.
+
+(* --- C15_debug_history (code after fixes/C15-1 and C15-2): for EVERY history of allocate(n) / deallocate(i-th live block) on the
+       debugging allocator (any page size, any T whose alignment divides the page size) the spec oracle accepts the trace: every
+       served block has exactly n*sizeof T bytes, ends at the guard page, is aligned for T; requests that cannot be represented are
+       refused; every deallocate of a live block succeeds. *)
+Theorem C15_debug_history : forall page sT aT, 1 <= page -> 2 * page <= c15_size_max -> 1 <= sT -> (aT | page) -> (aT | sT) ->
+  forall ops, ~ In DObsPrecond (c15_dbg_run true true page sT (c15_dbg_state0 page) ops) ->
+    c15_spec_dbg_trace page sT aT 0 ops (c15_dbg_run true true page sT (c15_dbg_state0 page) ops) = true.
+Proof. exact c15_debug_history. Qed.
+Print Assumptions C15_debug_history.
+
+
+(* the tree as found: refuted — findings F-C15-1 and F-C15-2 (witnesses replayed on the implementation by corpus/C15) *)
+Theorem C15_debug_dealloc_orig_refuted :
+  exists page sT n pp ai gp,
+    (page | pp) /\ c15_dbg_allocate_orig page 0 sT n (fun _ => Some pp) = C15Ok (ai, gp) /\
+    ((page | d_page_ptr ai) /\ d_ptr ai = d_page_ptr ai + page - d_capacity ai mod page) /\
+    c15_dbg_deallocate_orig page 0 (d_ptr ai) n [ai] = inl DbgNotFound.
+Proof. exact c15_debug_dealloc_orig_refuted. Qed.
+Print Assumptions C15_debug_dealloc_orig_refuted.
+
+Theorem C15_debug_alloc_orig_refuted :
+  exists page sT n pp ai gp,
+    c15_dbg_allocate_orig page 0 sT n (fun _ => Some pp) = C15Ok (ai, gp) /\ d_capacity ai < n * sT.
+Proof. exact c15_debug_alloc_orig_refuted. Qed.
+Print Assumptions C15_debug_alloc_orig_refuted.
+
+(* --- C15_isAligned (debugalign.hh): Dune::isAligned(p, 2^k), i.e. libstdc++'s std::align on 64-bit words, decides p mod 2^k = 0
+       (k <= 62: for 2^63 the `space = 2*align` argument wraps to 0 and the answer is always false) *)
+Theorem C15_isAligned : forall p k, p < 2 ^ 64 -> k <= 62 -> c15_isAligned p (2 ^ k) = (p mod 2 ^ k =? 0).
+Proof. exact c15_isAligned_correct. Qed.
+Print Assumptions C15_isAligned.
+
+(* --- non-vacuity: hypotheses are met by non-trivial values *)
+Example C15_ex_geometry : c15_geometry 12 4 41 = Some (C15Geom 12 41 8 16 48 3).
+Proof. vm_compute; reflexivity. Qed.
+Example C15_ex_geometry_single : c15_pa_geometry 64 64 2 = Some (C15Geom 64 128 64 64 128 2) /\ c15_geometry 100 4 7 = Some (C15Geom 100 100 8 104 104 1).
+Proof. vm_compute; split; reflexivity. Qed.
+Example C15_ex_history :
+  let ops := [OpAlloc 1; OpAlloc 1; OpAlloc 1; OpAlloc 1; OpFree 1; OpAlloc 3; OpFree 0; OpAlloc 1; OpAlloc 1; OpAlloc 1] in
+  c15_ops_ok 0 ops = true /\
+  fst (c15_run (C15Geom 12 41 8 16 48 3) c15_client_empty ops) =
+    [ObsBlock 0 0; ObsBlock 0 16; ObsBlock 0 32; ObsBlock 1 0; ObsFreed; ObsBadAlloc; ObsFreed; ObsBlock 0 0; ObsBlock 0 16; ObsBlock 1 16].
+Proof. vm_compute; split; reflexivity. Qed.
+Example C15_ex_debug :
+  exists ai gp, c15_dbg_allocate 4096 0 8 1000 (fun _ => Some 65536) = C15Ok (ai, gp) /\ d_ptr ai = 65536 + 4096 - 3904 /\ gp = 65536 + 2 * 4096 /\
+    c15_dbg_deallocate 4096 0 (d_ptr ai) 1000 [ai] = inr [].
+Proof. exact c15_ex_debug. Qed.
+Example C15_ex_debug_page_multiple :
+  exists ai gp, c15_dbg_allocate 4096 0 1 4096 (fun _ => Some 65536) = C15Ok (ai, gp) /\ c15_dbg_deallocate 4096 0 (d_ptr ai) 4096 [ai] = inr [] /\
+    c15_dbg_allocate 4096 0 4 (2 ^ 62 + 1) (fun _ => Some 65536) = C15BadAlloc.
+Proof. exact c15_ex_debug_page_multiple. Qed.
+Example C15_ex_debug_history :
+  let ops := [OpAlloc 100; OpAlloc 512; OpAlloc 0; OpFree 1; OpAlloc (2 ^ 61); OpFree 0; OpFree 0] in
+  c15_dbg_run true true 4096 8 (c15_dbg_state0 4096) ops =
+    [DObsOk 3296 800 true; DObsOk 0 4096 true; DObsOk 0 0 true; DObsFreed; DObsBadAlloc; DObsFreed; DObsFreed].
+Proof. vm_compute; reflexivity. Qed.
+Example C15_ex_isAligned : c15_isAligned 4128 32 = true /\ c15_isAligned 4112 32 = false /\ c15_isAligned (2 ^ 63) (2 ^ 63) = false.
+Proof. vm_compute; repeat split; reflexivity. Qed.
